@@ -103,10 +103,12 @@ void harness(void) {
 	if (r == 0 && wnd_bits == VF_MAX_WND && md->wnd_bits != 0) VF_CANARY("C02 comb1t precompute: full table built");
 #elif defined(VF_FN_inter_pre)
 	ec_point_t tbl[4];
-	VF_NONDET(size_t, wnd_bits);
-	VF_ASSUME(wnd_bits == 4);	/* EP_DEPTH == EP_WIDTH == 4: the only call sites */
-	r = ec_point_proj_inter_twin_mult_precalc_affine(&P, wnd_bits, curve, tbl);
+	/* EP_DEPTH == EP_WIDTH == 4: the only call sites pass this constant */
+	r = ec_point_proj_inter_twin_mult_precalc_affine(&P, 4, curve, tbl);
 #elif defined(VF_FN_inter_twin)
+	/* bound of this job: scalars below 8, i.e. NAF rows of at most 4 columns (the digits themselves
+	 * are whatever the bn_calc_naf contract allows: 0 or odd, |digit| < 2^(w-1)) */
+	VF_ASSUME((d.digits == 0 || (d.digits == 1 && d.num[0] < 8)) && (e.digits == 0 || (e.digits == 1 && e.num[0] < 8)));
 	r = ec_point_proj_inter_twin_mult_affine(&P, &d, &Q, &e, curve, &P2);
 	if (r == 0 && vf_n_pop >= 6) VF_CANARY("C02 inter twin: ladder iterations reachable");
 #elif defined(VF_FN_mult_bp)
